@@ -741,7 +741,15 @@ pub fn run_c11_grid(r: &mut Runner, thorough: bool) {
         // totals large enough that a reward of 10^27 keeps the exchange rate inside [1e-3, 1e3]
         Script::new(k).run(resume(&adm(), 10u128.pow(25), 10u128.pow(25), 0)).done()
     };
-    let mut seeds = vec![("lst_positive", seed_two_stakes(&k)), ("lst_zero", seed_resumed(&k)), ("big_totals", big_seed(&k))];
+    // a configuration whose protocol-chain section was replaced after the treasury was set (UpdateConfig does
+    // not look at the other sections): the prefix the contract believes in is no longer the treasury's
+    let move_prefix = |s: &mut Sim| -> bool {
+        let mut pc = instantiate_msg(&k).protocol_chain_config;
+        pc.account_address_prefix = "init".into();
+        pc.oracle_address = None;
+        s.apply(&exec(&adm(), ExecuteMsg::UpdateConfig { native_chain_config: None, protocol_chain_config: Some(pc), protocol_fee_config: None, monitors: None, batch_period: None }, vec![])).out.ok
+    };
+    let mut seeds = vec![("lst_positive", seed_two_stakes(&k)), ("lst_zero", seed_resumed(&k)), ("big_totals", big_seed(&k)), ("protocol_prefix_moved", seed_two_stakes(&k))];
     if thorough {
         seeds.push(("rate_up", seed_rate_up(&k)));
         seeds.push(("rate_down", seed_rate_down(&k)));
@@ -768,6 +776,9 @@ pub fn run_c11_grid(r: &mut Runner, thorough: bool) {
                     vec![],
                 ));
                 assert!(ap.out.ok, "fee config update failed: {:?}", ap.out.err);
+                if *name == "protocol_prefix_moved" && !move_prefix(&mut s) {
+                    continue;
+                }
                 let st = s.w.state();
                 // rewards chosen from the rate: those whose product with the fee rate sits on either side of
                 // a machine-word boundary (a fast path, a narrowing cast or an intermediate overflow would
@@ -789,8 +800,16 @@ pub fn run_c11_grid(r: &mut Runner, thorough: bool) {
                     if l > 0 && n + reward > l.saturating_mul(1000) {
                         continue;
                     }
-                    for who in ["collector", "staker", "user"] {
+                    let cfg_now = s.w.config();
+                    // the account the contract itself derives for the collector under its current configuration
+                    let direct = bech::hook_sender(&cfg_now.protocol_chain_config.ibc_channel_id, cfg_now.native_chain_config.reward_collector_address.as_str(), &cfg_now.protocol_chain_config.account_address_prefix);
+                    let moved = *name == "protocol_prefix_moved";
+                    for who in ["collector", "collector_direct", "staker", "user"] {
+                        if moved != (who == "collector_direct") && (moved || who == "collector_direct") && !(who == "collector_direct" && !moved && rate % 2_500 == 0) {
+                            continue;
+                        }
                         let a = match who {
+                            "collector_direct" => exec(&direct, ExecuteMsg::ReceiveRewards {}, vec![(sd(), *reward)]),
                             "collector" => rewards(&s, *reward),
                             "staker" => rewards_from(&n20(&k, "staker"), *reward),
                             _ => {
@@ -803,16 +822,19 @@ pub fn run_c11_grid(r: &mut Runner, thorough: bool) {
                         if who == "user" {
                             t.fund(&u(1), *reward);
                         }
+                        if who == "collector_direct" {
+                            t.fund(&direct, *reward);
+                        }
                         let pre = t.clone();
                         let ap = t.apply(&a);
                         evals += 1;
                         let fee = mul_div(*rate, *reward, 100_000).unwrap_or(u128::MAX);
-                        let should = who == "collector" && l > 0 && fee <= *reward;
+                        let should = (who == "collector" || who == "collector_direct") && l > 0 && fee <= *reward;
                         let case = json!({"seed": name, "reward": reward.to_string(), "fee_rate": rate.to_string(), "treasury": tre, "sender": who, "fee": fee.to_string()});
                         // fee == reward leaves nothing to restake; an ICS-20 transfer of zero cannot be sent, so
                         // the chain refuses the whole reward. The statement does not say such a reward must be
                         // accepted: only the refusal direction is judged there (DESIGN O15).
-                        let undecided = who == "collector" && l > 0 && fee == *reward;
+                        let undecided = (who == "collector" || who == "collector_direct") && l > 0 && fee == *reward;
                         if ap.out.ok != should && !(undecided && !ap.out.ok) {
                             viols.push((
                                 viol("C11", if ap.out.ok { "grid.reward.accepted_wrongly" } else { "grid.reward.refused_wrongly" }, format!("{name}: reward {reward} rate {rate} treasury {:?} from {who}: ok={} err={:?} (fee {fee})", tre, ap.out.ok, ap.out.err)),
